@@ -259,7 +259,9 @@ CANARIES = {"quick": 30, "thorough": None}
 INFO = {
     "explanation": "Each refusal class is run through the facade over a recording device with every other argument "
                    "symbolic and the refused quantity ranging over its whole invalid domain; z3 decides on every path "
-                   "that the named exception is raised and the execute count stays 0.",
+                   "that the named exception is raised (for operation codes: an instance of SCSICommand.OpcodeException) and the "
+                   "execute count stays 0 -- also after a valid request of the same kind (class used before, copy with the "
+                   "same key set, earlier TransportID for the same port).",
     "functions": ["__init__ of scsi_cdb_read*/write*/writesame*/atapassthrough*", "SCSICommand.init_cdb",
                   "SCSI.persistentreservein", "ExtendedCopy.marshall_target/marshall_cscd/marshall_segment/"
                   "encode_segment_dict/get_code_int (spc4 and spc5)", "PersistentReserveInReadFullStatus.marshall_transport_id"],
